@@ -290,6 +290,7 @@ theorem linv_apply (g : G) (a : Action) (h : LInv g) : LInv (g.apply a).1 := by
     · split
       · exact ⟨h.queue, h.nodup, h.logDone⟩
       · exact linv_wake _ _ ⟨h.queue, h.nodup, h.logDone⟩
+  | cancelRem p => exact linv_deliverCancels g _ h
 
 theorem linv_react (g : G) (a : Action) (h : LInv g) : LInv (react g a).1 := by
   unfold react
